@@ -171,3 +171,46 @@ void* m_f({pre}__Syms* s, int k) {{
         if isinstance(v, PV): v = E.use(st, v, 'observable net ' + name)
         return v
     def mem(self, st, p): return st.objs[p.obj].regions[0]
+
+class TbModel:
+    """hextb.cpp (its own load/run/handleSyscall) on top of the Verilated hex model built by the real constructor chain"""
+    def __init__(self):
+        pre = 'Vhex_pkg'
+        d = self.dir = build.verilate('hex', HEX_SOURCES, pre, extra=['--trace'])
+        cpps = sorted(c for c in glob.glob(os.path.join(d, f'{pre}*.cpp')) if '__Trace' not in c and '__Dpi' not in c)
+        src = '#define main hextb_main\n#include "' + os.path.join(build.REPO, 'hextb.cpp') + '"\n#undef main\n' + '#include "hex.cpp"\n' + \
+              '#include "Vhex_pkg__Syms.h"\n' + ''.join(f'#include "{c}"\n' for c in cpps) + '''
+extern "C" {
+void* tb_reg(Vhex_pkg* t, int k) {
+  switch (k) { case 0: return &t->hex->u_processor->pc_q; case 1: return &t->hex->u_processor->__PVT__areg_q;
+    case 2: return &t->hex->u_processor->__PVT__breg_q; case 3: return &t->hex->u_processor->__PVT__oreg_q;
+    case 4: return &t->hex->u_memory->memory_q[0]; case 5: return &t->i_clk; case 6: return &t->i_rst;
+    case 7: return &t->o_syscall_valid; case 8: return &t->o_syscall; }
+  return 0;
+}
+unsigned long tb_memoff(Vhex_pkg_memory* m) { return (char*)&m->memory_q[0] - (char*)m; }
+Vhex_pkg* tb_new(VerilatedContext* c) { return new Vhex_pkg{c, "TOP"}; }
+int tb_run(VerilatedContext* c, Vhex_pkg* t, unsigned long maxc) {
+  const std::unique_ptr<VerilatedContext> contextp{c};
+  const std::unique_ptr<Vhex_pkg> top{t};
+  int r = run(contextp, top, false, maxc);
+  (void)const_cast<std::unique_ptr<VerilatedContext>&>(contextp).release();
+  (void)const_cast<std::unique_ptr<Vhex_pkg>&>(top).release();
+  return r;
+}
+void tb_load(const char* fn, Vhex_pkg* t) {
+  const std::unique_ptr<Vhex_pkg> top{t};
+  load(fn, top);
+  (void)const_cast<std::unique_ptr<Vhex_pkg>&>(top).release();
+}
+void tb_syscall(int sc, Vhex_pkg* t, int* exitCode) {
+  const std::unique_ptr<Vhex_pkg> top{t};
+  handleSyscall(static_cast<hex::Syscall>(sc), top, *exitCode, false);
+  (void)const_cast<std::unique_ptr<Vhex_pkg>&>(top).release();
+}
+unsigned long tb_ctxsize() { return sizeof(VerilatedContext); }
+}
+'''
+        wrap = os.path.join(d, 'tbwrap.cpp'); open(wrap, 'w').write(src)
+        self.ll = build.ir(wrap, includes=[d, VL_INC, os.path.join(VL_INC, 'vltstd')])
+        self.M = parse_module(self.ll)
